@@ -542,7 +542,7 @@ def _is_filter(name, args):
 
 def _last_dim(v):
     """length along the last axis of an array value, where the value shows it"""
-    z = un(v, "zeros")
+    z = un(v, "zeros") or un(v, "ones") or un(v, "empty")
     if z is not None:
         shp = z[0]
         st = un(shp, "store")
@@ -583,6 +583,20 @@ class _Layout:
         self.slot_start = off                   # first slot, counted in the buffer itself (off counts in the whole filter input)
 
 
+def _zero_buffer(buf):
+    """`b = np.empty(shape); b[...] = 0` (every element overwritten with 0, whatever the buffer held) is np.zeros(shape)"""
+    st = un(buf, "store")
+    if st is not None and israt(st[2]) and const_of(st[2]) == 0:
+        parts = ix_parts(st[1])
+        full = all(is_sym(p_, "Ellipsis") or (unslice(p_) is not None and all(b is None for b in unslice(p_))) for p_ in parts)
+        if full and sum(1 for p_ in parts if is_sym(p_, "Ellipsis")) <= 1:
+            for k0 in ("zeros", "ones", "empty"):
+                a = un(st[0], k0)
+                if a is not None:
+                    return F.fn("zeros", a[0])
+    return buf
+
+
 def _layout(R, x, ln):
     """-> _Layout of the filter input x (ln: the number of samples of the signal along the last axis; R: the run, for the sign facts of the regime)"""
     if x is None or not israt(x):
@@ -614,6 +628,8 @@ def _layout(R, x, ln):
             if inner is not None:
                 raise Unsupported("the filter input is not zeros around one array")
             inner, before = _layout(R, part, ln), total
+            if inner.total is None:
+                raise Unsupported(f"length of the array the samples are stored in (padding is concatenated around it): {_short(inner.buffer)}")
             total = total + inner.total
         if inner is None:
             raise Unsupported("the filter input is not zeros around one array")
@@ -623,7 +639,10 @@ def _layout(R, x, ln):
     st = un(x, "store")
     if st is not None:
         buf, slot, sig = st
-        n = _last_dim(buf) if un(buf, "zeros") is not None else None
+        buf = _zero_buffer(buf)
+        if un(buf, "store") is not None or un(buf, "loopres") is not None or un(buf, "carried") is not None:
+            raise Unsupported(f"the filter input is a buffer written in several steps: {_short(x)}")
+        n = _last_dim(buf) if (un(buf, "zeros") or un(buf, "ones") or un(buf, "empty")) is not None else None          # (a buffer that is not zeros has a length too: the obligation on the zeros reports it)
         sl = _last_axis_slice(slot)
         if sl is None:
             parts = ix_parts(slot)
@@ -644,10 +663,52 @@ def _layout(R, x, ln):
         lo_, hi_ = bound(sl[0]), bound(sl[1])
         # (n None: not a zero array of visible length - the obligations that need the length / the zeros report it)
         return _Layout(n, lo_ if lo_ is not None else F.const(0), sl[2] if sl[2] is not None else F.const(1), sig, buf, slot, [], n, hi_)
+    lr = un(x, "loopres")
+    if lr is not None:
+        return _loop_layout(x, lr, ln)
     u = S.unfn(x)
     if u is not None and (u[0].startswith("call:") or u[0] in ("apply", "ite", "idx", "zeros")):
         raise Unsupported(f"the filter input is built in a way that is not modelled: {_short(x)}")
+    # what is left is read as the signal itself (no stuffing, no padding): only an element-wise expression of inputs and of reductions of inputs is that - an array
+    # built in any other way (filled in a loop, by a routine, through a mask ...) is a buffer whose stores were not placed
+    for av, nm, a in top_atoms(x):
+        if nm in _REDUCTIONS:
+            continue
+        inner = un(av, "idx") or un(av, "call:np.expand_dims")
+        if inner is not None and israt(inner[0]) and (S.unfn(inner[0]) or ("",))[0] in _REDUCTIONS:
+            continue
+        raise Unsupported(f"the filter input is built in a way that is not modelled: {_short(av)}")
     return _Layout(ln, F.const(0), F.const(1), x, None, None, [], ln, None)
+
+
+_REDUCTIONS = {"call:np.mean", "call:np.sum", "call:np.average", "call:np.nanmean", "call:np.median", "call:np.max", "call:np.min", "call:np.std"}
+
+
+def _loop_layout(x, lr, ln):
+    """the filter input is a zero buffer filled sample by sample in a counted loop: `for j in range(ln): buf[..., off + stride * j] = signal[..., j]`"""
+    k, n, body = lr
+    kname = S._strsym(k)
+    st = un(body, "store")
+    cb = un(st[0], "carried") if st is not None else None
+    if kname is None or cb is None or un(cb[0], "zeros") is None:
+        raise Unsupported(f"the filter input is filled in a loop in a way that is not modelled: {_short(x)}")
+    buf, slot, val = cb[0], st[1], st[2]
+    parts = ix_parts(slot)
+    iv = un(val, "idx") if israt(val) else None
+    vparts = ix_parts(iv[1]) if iv is not None else []
+    if not (len(parts) == 2 and is_sym(parts[0], "Ellipsis") and israt(parts[1]) and unslice(parts[1]) is None
+            and len(vparts) == 2 and is_sym(vparts[0], "Ellipsis") and israt(vparts[1]) and eq(vparts[1], k) and israt(iv[0]) and not iv[0].depends_on(kname)):
+        raise Unsupported(f"the filter input is filled in a loop, but not as `buffer[..., position(j)] = signal[..., j]`: {_short(body)}")
+    pos = parts[1]
+    off = pos.subs({kname: F.const(0)})
+    stride = pos.subs({kname: F.const(1)}) - off
+    if off.depends_on(kname) or stride.depends_on(kname) or not eq(pos, off + stride * k):
+        raise Unsupported(f"the position a loop stores sample j at is not off + stride * j: {_short(pos)}")
+    if not eq(n, ln):
+        raise Unsupported(f"the loop that fills the filter input runs over {_short(n)} samples, not over the input length")
+    total = _last_dim(buf)
+    out = _Layout(total, off, stride, iv[0], buf, F.fn("tuple", F.sym("Ellipsis"), S.mk_slice(off, off + ln * stride, stride)), [], total, off + ln * stride)
+    return out
 
 
 class _Resampled:
@@ -671,6 +732,14 @@ class _Resampled:
             self.stop = sl[1]
             self.step = sl[2] if sl[2] is not None else F.const(1)
             u = S.unfn(args[0])
+            if (u is None or not _is_filter(u[0], u[1])) and israt(args[0]):
+                # (filter output + mu)[..., a::s] with mu the mean kept as a trailing axis of length 1: broadcasting comes first, so this is (filter output)[..., a::s] + mu
+                fs = [(av_, nm_, a_) for av_, nm_, a_ in top_atoms(args[0]) if _is_filter(nm_, a_)]
+                if len(fs) == 1:
+                    extra = args[0] - fs[0][0]
+                    if not find_atoms(extra, _is_filter) and _last_axis_mean(extra, R.E("data")) is True:
+                        self.rest = self.rest + extra
+                        u = (fs[0][1], fs[0][2])
             if u is None or not _is_filter(u[0], u[1]):
                 raise Unsupported(f"what is sliced is not the filter output: {_short(args[0])}")
             nm, args = u
@@ -752,6 +821,21 @@ def _last_axis_mean(mu, data):
     return False
 
 
+def _opaque_extents(vals):
+    """extents (X.shape / X.size / len(X) / X.ndim) of arrays X that are not plain inputs of the function: the size of a computed array (one built in a helper, the
+    result of an expression the engine does not know the shape of) that the value does not show.  A layout that is expressed in such an extent cannot be compared with
+    one expressed in data.shape[-1]: the store / the padding cannot be placed - not decided, never a violation."""
+    out = []
+    for v in vals:
+        if not israt(v):
+            continue
+        for av, nm, a in find_atoms(v, lambda n, a: n in ("attr:shape", "attr:size", "attr:ndim", "len")):
+            x = a[0] if a else None
+            if not (israt(x) and S.unfn(x) is None and S._strsym(x) is not None):
+                out.append(av)
+    return out
+
+
 def r3_resample(ctx):
     """dsp.resample, evaluated in the regimes (p', q' > 1), (q' = 1), (t given); p' = p / gcd, q' = q / gcd.  The lag bookkeeping is generic:
     whatever routine filters (lfilter on a zero-stuffed, zero-padded signal: output sample k is full-rate sample k; upfirdn: output sample k is
@@ -800,14 +884,19 @@ def r3_resample(ctx):
                 ctx.error(f"resample ({arm}): result taken from the filter output", R.ret_node(), str(e))
             continue
         descr[arm] = (R, D, Pr, Qr, M, rv)
-        chk = lambda ok, msg, where, detail=None, rv=rv: _chk(ctx, ok, msg, where, detail, [rv])      # noqa
+        def chk(ok, msg, where, detail=None, rv=rv, sizes=()):
+            op = _opaque_extents(sizes) if not ok else []
+            if op:
+                ctx.error(msg, where, {"not decided": "the layout is expressed in the size of an array the checker cannot relate to the input length", "sizes": [_short(x) for x in op[:3]], "detail": detail})
+                return False
+            return _chk(ctx, ok, msg, where, detail, [rv])
         first = D.start * D.rate
         want = D.pad_front + M / 2
         ok = eq(first, want)
         chk(ok, f"resample ({arm}): the first retained sample is full-rate sample `front padding + M/2` of the filter output (the FIR is centred at M/2), for every p/q",
                   R.ret_node(), None if ok else {"routine": D.routine, "first retained full-rate index": _short(first), "expected": _short(want),
                                                  "consequence": "q * (x // q) != x whenever q does not divide x: the output is shifted by a fraction of an output sample "
-                                                                "(original samples are not kept, constants and band-limited signals are not reproduced)"})
+                                                                "(original samples are not kept, constants and band-limited signals are not reproduced)"}, sizes=[first, want])
         sp = D.step * D.rate
         ok = eq(sp, Qr)
         chk(ok, f"resample ({arm}): retained samples are {'q' if arm == 'q > 1' else '1'} full-rate sample(s) apart after the lag is removed", R.ret_node(),
@@ -815,11 +904,19 @@ def r3_resample(ctx):
         sig = D.signal
         removed = R.E("data") - sig if israt(sig) else None
         ok = removed is not None and eq(D.rest, removed)
+        if not ok and removed is not None and _last_axis_mean(D.rest, R.E("data")) is True and _last_axis_mean(removed, R.E("data")) is True:
+            ok = True          # two spellings of one value: np.mean(data, axis=-1, keepdims=True) = data.mean(axis=-1)[..., None] = np.expand_dims(data.mean(axis=-1), -1)
         chk(ok, f"resample ({arm}): the mean removed before filtering is added back", R.ret_node(), None if ok else {"added": _short(D.rest), "removed": _short(removed)})
     if "q > 1" not in descr:
         return
     R, D, Pr, Qr, M, rv = descr["q > 1"]
-    chk = lambda ok, msg, where, detail=None, rv=rv: _chk(ctx, ok, msg, where, detail, [rv])      # noqa
+
+    def chk(ok, msg, where, detail=None, rv=rv, sizes=()):
+        op = _opaque_extents(sizes) if not ok else []
+        if op:
+            ctx.error(msg, where, {"not decided": "the layout is expressed in the size of an array the checker cannot relate to the input length", "sizes": [_short(x) for x in op[:3]], "detail": detail})
+            return False
+        return _chk(ctx, ok, msg, where, detail, [rv])
     ss = D.stuff_step()
     ok = ss is not None and eq(ss, Pr) and eq(D.step * D.rate, Qr)
     chk(ok, "resample: the ratio is reduced by gcd(p, q) before anything is derived from it (stuffing step p / gcd, decimation step q / gcd)", fn,
@@ -861,7 +958,7 @@ def r3_resample(ctx):
                "samples are retained")
         dbg = {"stop - start": _short(D.stop - D.start) if D.stop is not None else None, "fir": _short(fir, 200)}
     if ok is not None:
-        chk(bool(ok), msg, R.ret_node(), None if ok else dbg)
+        chk(bool(ok), msg, R.ret_node(), None if ok else dbg, sizes=[D.pad_front, D.pad_back, D.start, D.stop])
     mean_ok = _last_axis_mean(R.E("data") - D.signal, R.E("data")) if israt(D.signal) else None
     if mean_ok is None:
         ctx.error("resample: what is removed from the data before filtering (expected: the mean along the last axis)", fn, _short(D.signal))
@@ -880,7 +977,9 @@ def r3_resample(ctx):
         ok = eq(ss, Pr) and mean_ok
         msg = "resample: the (mean-removed) samples are up-sampled by p with zeros (original samples are kept when upsampling)"
     if mean_ok is not None and not (D.routine == "lfilter" and nslots is None):
-        chk(bool(ok), msg, fn, None if ok else {"buffer": _short(D.buffer), "slot": _short(D.slot), "signal": _short(D.signal)})
+        lay_ = getattr(D, "layout", None)
+        chk(bool(ok), msg, fn, None if ok else {"buffer": _short(D.buffer), "slot": _short(D.slot), "signal": _short(D.signal)},
+            sizes=[lay_.core, lay_.total, lay_.off, lay_.stop, D.pad_back] if lay_ is not None else [])
 
 
 # =============================================================================================================================== R4 rescale
